@@ -275,7 +275,9 @@ func (res *CheckResult) checkFnCallArity(fnCall *parser.FnCall) {
 		for index, arg := range validArgs {
 			lastElemIndex := len(sig) - 1
 			if index > lastElemIndex {
-				break
+				// surplus arguments are still expressions of the script
+				res.checkExpression(arg, TypeAny)
+				continue
 			}
 
 			type_ := sig[index]
